@@ -185,7 +185,7 @@ class Lut:
                 "column units": ["um^2" if self.feat == "area_um" else "um^3",
                                  "", "kPa"]}
 
-    def write(self, path, ident):
+    def write(self, path, ident, crlf=False):
         m = self.meta(ident)
         del m["column features"], m["column units"]
         lines = ["# verification LUT", "#", "# BEGIN METADATA"]
@@ -196,8 +196,9 @@ class Lut:
         lines.append("# %s %s\tdeform\temodulus [kPa]" % (self.feat, unit))
         for r in self.nodes:
             lines.append("\t".join(repr(float(v)) for v in r))
-        with open(path, "w") as fd:
-            fd.write("\n".join(lines) + "\n")
+        with open(path, "w", newline="") as fd:
+            fd.write(("\r\n" if crlf else "\n").join(lines)
+                     + ("\r\n" if crlf else "\n"))
 
     # -- float normalisation as documented (scale LUT | scale data; divide
     #    both axes by the LUT maximum), and its triangulation ---------------
@@ -368,13 +369,37 @@ def cross2(o, a, b):
 # --------------------------------------------------------------------------
 # calling the implementation
 # --------------------------------------------------------------------------
+# np.float32 scalars make numpy compute the scaling factors in single
+# precision (NEP 50): not generated in general, see chk_numtypes
+NUMTYPES = ["float", "int", "np.float64", "np.int64"]
+
+
+def cast_num(v, t):
+    """the number v as Python int / numpy scalar when that is exact"""
+    v = float(v)
+    if t in ("int", "np.int64") and v == int(v):
+        return int(v) if t == "int" else np.int64(int(v))
+    if t == "np.float32" and float(np.float32(v)) == v:
+        return np.float32(v)
+    if t == "np.float64":
+        return np.float64(v)
+    return v
+
+
 def medium_kwargs(med, n=None):
+    nt = med.get("numtype", "float")
     if med["kind"] == "num":
-        return dict(medium=float(med["v"]), temperature=None,
+        return dict(medium=cast_num(med["v"], nt), temperature=None,
                     visc_model=None)
     t = med["temp"]
     if isinstance(t, list):
         t = np.array(t, dtype=float)
+        if nt in ("int", "np.int64") and np.all(t == np.round(t)):
+            t = t.astype(np.int64)
+        elif nt == "np.float32" and np.all(t.astype(np.float32) == t):
+            t = t.astype(np.float32)
+    else:
+        t = cast_num(t, nt)
     return dict(medium=med["name"], temperature=t, visc_model=med["model"])
 
 
@@ -412,8 +437,9 @@ def nd_call(L, lut_arg, case, med=None):
 
 def call_emod(L, lut_arg, cw, fr, px, med, x, d, **kw):
     from dclab.features import emodulus as em
-    args = dict(deform=d, channel_width=cw, flow_rate=fr, px_um=px,
-                lut_data=lut_arg)
+    nt = med.get("numtype", "float")
+    args = dict(deform=d, channel_width=cast_num(cw, nt),
+                flow_rate=cast_num(fr, nt), px_um=px, lut_data=lut_arg)
     args["area_um" if L.feat == "area_um" else "volume"] = x
     args.update(medium_kwargs(med))
     args.update(kw)
@@ -486,21 +512,31 @@ def reference(L, cw, fr, px, med, x, d):
         # sliver qhull may find neither (measured on HE-2D-FEM-22: exactly
         # on the edge not found, 1e-14 to either side found). NaN-ness of
         # such points is not compared: they count as "in the band".
+        # Only where a SLIVER is involved (the simplex or one of its
+        # neighbours has longest-edge^2 / area > 1e3); on edges and nodes of
+        # well-shaped triangles qhull's answer is determined and compared.
         lmin = np.minimum(np.minimum(l1, l2), l3)
         idx = np.where(ok)[0]
-        dist[idx[lmin < 1e-12]] = 0.0
+        G = sliver_measure(T, P)
+        sk = s[ok]
+        gn = np.maximum(G[sk], np.where(T.neighbors[sk] >= 0,
+                                        G[T.neighbors[sk]], 0).max(axis=1))
+        dist[idx[(lmin < 1e-12) & (gn > 1e3)]] = 0.0
     lost = (~ok) & fin & (dist > BAND)
     if lost.any():
-        # inside the hull but not located: on such an edge?
+        # inside the hull but not located: on an edge of a sliver?
         SA, SB, SC = (P[T.simplices[:, 0]], P[T.simplices[:, 1]],
                       P[T.simplices[:, 2]])
         DD = cross2(SA, SB, SC)
+        G = sliver_measure(T, P)
+        gn = np.maximum(G, np.where(T.neighbors >= 0, G[T.neighbors],
+                                    0).max(axis=1))
         for i in np.where(lost)[0]:
             q = Q[i][None, :]
             m = np.minimum(np.minimum(cross2(q, SB, SC) / DD,
                                       cross2(SA, q, SC) / DD),
                            cross2(SA, SB, q) / DD)
-            if ((m > -1e-12) & (m < 1e-12)).any():
+            if ((m > -1e-12) & (m < 1e-12) & (gn > 1e3)).any():
                 dist[i] = 0.0
     visc = viscosities(med, cw, fr, n)
     E = E * (fr / L.fr) * (visc / L.visc) * (L.cw / cw) ** 3
@@ -542,6 +578,22 @@ def alt_interps(P, V, T, k, q):
             if min(l1, l2, l3) >= -1e-12:
                 out.append(l1 * V[a] + l2 * V[b] + l3 * V[c])
     return out
+
+
+def sliver_measure(T, P):
+    """longest edge squared / |2 area| per simplex (cached on T)"""
+    G = getattr(T, "_verif_sliver", None)
+    if G is None:
+        a, b, c = (P[T.simplices[:, 0]], P[T.simplices[:, 1]],
+                   P[T.simplices[:, 2]])
+        em_ = np.maximum.reduce([((a - b) ** 2).sum(1), ((b - c) ** 2).sum(1),
+                                 ((a - c) ** 2).sum(1)])
+        G = em_ / np.maximum(np.abs(cross2(a, b, c)), 1e-300)
+        try:
+            T._verif_sliver = G
+        except Exception:
+            pass
+    return G
 
 
 def compare_values(ref, got, dist, cond, rtol=RTOL):
@@ -595,24 +647,34 @@ for _nm, _k in sorted(MEDIA.items()):
         KNOWN.append((_nm, "buyukurganci-2022"))
         if _k != "0.83% MC-PBS":
             KNOWN.append((_nm, "herold-2017"))
-KNOWN.append(("CellCarrier", "herold-2017-fallback"))
+for _nm, _k in sorted(MEDIA.items()):
+    if _k in ("0.49% MC-PBS", "0.59% MC-PBS"):
+        KNOWN.append((_nm, "herold-2017-fallback"))
+
+
+_OOR = {"n": 0}
 
 
 def gen_medium(rng, n, L, cw, fr, force=None):
     k = force or rng.choice(["num", "num", "scalar", "array", "array"])
     if k == "per-event":
         k = "array"
+    nt = rng.choice(NUMTYPES)
     if k == "num":
-        v = rng.choice([L.visc, 1.0, 5.5, 2.25, 12.0,
+        v = rng.choice([L.visc, 1.0, 5.5, 2.25, 12.0, 3.0, 7.0,
                         quant(rng.uniform(0.5, 20), 6)])
-        return dict(kind="num", v=v)
+        return dict(kind="num", v=v, numtype=nt)
     name, model = rng.choice(KNOWN)
     lo, hi = (22.0, 26.0) if name != "water" else (5.0, 38.0)
-    if rng.random() < 0.2:
-        lo, hi = rng.choice([(8.0, 17.0), (27.0, 45.0), (10.0, 45.0)])
+    _OOR["n"] += 1
+    if _OOR["n"] % 5 == 0:          # quota: every fifth known-medium case
+        lo, hi = rng.choice([(8.0, 17.0), (38.0, 45.0), (41.0, 60.0)])
     if k == "scalar":
-        return dict(kind="known", name=name, model=model,
-                    temp=quant(rng.uniform(lo, hi), 4))
+        tq = quant(rng.uniform(lo, hi), 4)
+        if nt in ("int", "np.int64"):
+            tq = float(round(tq))
+        return dict(kind="known", name=name, model=model, temp=tq,
+                    numtype=nt)
     r = rng.random() if force != "per-event" else 1.0
     if r < 0.2:
         t = [quant(rng.uniform(lo, hi), 4)] * n       # all equal
@@ -912,11 +974,13 @@ def correspondence(run):
     for c in load_corpus():
         if "x" in c and "check" not in c:
             groups.append((lut_from_case(c["lut"]), False, [(c, ["corpus"])]))
+    run.extra.setdefault("_case_luts", [])
     for gi in range(nuser):
         # every fourth table is a volume table used with pixel sizes other
         # than 0 and 0.34; every fourth case has per-event temperatures
         vol = gi % 4 == 0
         L = gen_user_lut(rng, dyadic=True, feat="volume" if vol else None)
+        run.extra["_case_luts"].append(lut_to_case(L))
         groups.append((L, False,
                        [gen_corr_case(rng, L, other_px=vol,
                                       per_event=(k % 4 == 1))
@@ -949,16 +1013,37 @@ def correspondence(run):
     if small_r:
         jobs.append(("c05_s", HEADER, "(fun lc => run_case (fst lc) (snd lc))",
                      small_r, small_i, 12))
-    # copy=False on float64 arrays: the memory model (get_emodulus_mem)
-    # predicts the final contents of the caller's arrays
-    nc = [k for k, inf in enumerate(small_i)
-          if inf[0]["x"] and not inf[0].get("nd") and k % 4 == 0]
-    nocopy_job = None
-    if nc:
-        nocopy_job = ("c05_nc", HEADER,
-                      "(fun lc => run_case_nocopy (fst lc) (snd lc))",
-                      [small_r[k] for k in nc], [small_i[k] for k in nc], 12)
-        jobs.append(nocopy_job)
+    # the memory model (get_emodulus_mem) against the caller's arrays:
+    # copy=False, copy=True, and the same array passed as abscissa AND deform
+    mem_jobs = {}
+    pick = [k for k, inf in enumerate(small_i)
+            if inf[0]["x"] and not inf[0].get("nd")]
+    for mode, (copy, alias), sel in (
+            ("nocopy", (False, False), pick[0::4]),
+            ("copy", (True, False), pick[1::8]),
+            ("alias_copy", (True, True), pick[2::8]),
+            ("alias_nocopy", (False, True), pick[3::16])):
+        if not sel:
+            continue
+        rr, ii = [], []
+        for k in sel:
+            case, kinds, dist, cond, L = small_i[k]
+            if alias:
+                # the same ndarray twice: re-render with deform := abscissa
+                case = dict(case, d=list(case["x"]))
+                tris, E, dist, cond = candidate_triangles(
+                    L, case["cw"], case["fr"], case["px"], case["medium"],
+                    case["x"], case["d"])
+                rr.append("(%s,\n %s)" % (render_lut_term(L),
+                                         render_case(L, case, tris)))
+            else:
+                rr.append(small_r[k])
+            ii.append((case, kinds, dist, cond, L))
+        job = ("c05_mem_%s" % mode, HEADER,
+               "(fun lc => run_case_mem %s %s (fst lc) (snd lc))" % (
+                   common.blit(copy), common.blit(alias)), rr, ii, 12)
+        mem_jobs[id(job)] = (copy, alias)
+        jobs.append(job)
 
     def work(job):
         name, hdr, fn, rendered, infos, shard = job
@@ -969,9 +1054,10 @@ def correspondence(run):
         results = list(ex.map(work, jobs))
     for job, res in zip(jobs, results):
         infos = job[4]
-        if job is nocopy_job:
+        if id(job) in mem_jobs:
+            copy, alias = mem_jobs[id(job)]
             for (case, kinds, dist, cond, L), flat in zip(infos, res):
-                nocopy_compare(run, case, L, flat, dist, cond)
+                mem_compare(run, case, L, flat, dist, cond, copy, alias)
             continue
         for (case, kinds, dist, cond, L), flat in zip(infos, res):
             model = decode_model(flat)
@@ -1001,22 +1087,36 @@ def correspondence(run):
                              what=why)
 
 
-def nocopy_compare(run, case, L, flat, dist, cond):
-    """get_emodulus(copy=False) on float64 arrays against run_case_nocopy:
-    values and the final contents of the caller's two arrays"""
+def mem_compare(run, case, L, flat, dist, cond, copy, alias):
+    """get_emodulus(copy=...) on float64 arrays against run_case_mem: the
+    values, and what happened to the caller's arrays (abscissa, deform,
+    temperatures).  copy=True: the arrays must be unchanged (property).
+    copy=False: "input arrays are overridden" -- the final contents are not
+    specified; the model's prediction is compared for information only
+    (run.count), the VALUES are compared when the arrays are distinct."""
     n = len(case["x"])
     x = np.array(case["x"], dtype=float)
-    d = np.array(case["d"], dtype=float)
+    d = x if alias else np.array(case["d"], dtype=float)
+    x0, d0 = x.copy(), d.copy()
     arg = L.name if L.name else lut_arg_tuple(L)
-    run.count("corr:copy=False")
+    tag = "copy=%s%s" % (copy, ",aliased" if alias else "")
+    run.count("corr:mem:" + tag)
     run.corr_checked += 1
+    kw = medium_kwargs(case["medium"])
+    tarr = kw["temperature"] if isinstance(kw["temperature"], np.ndarray) \
+        else None
+    t0 = None if tarr is None else tarr.copy()
     try:
         e = call_emod(L, arg, case["cw"], case["fr"], case["px"],
-                      case["medium"], x, d, copy=False)
+                      case["medium"], x, d, copy=copy, temperature=tarr
+                      if tarr is not None else kw["temperature"])
     except Exception:
-        return      # where the exception interrupts the in-place updates is
-        #             not part of the property
-    # decode: result, 77, x cells, 77, d cells
+        if copy and (not np.array_equal(x, x0) or not np.array_equal(d, d0)):
+            run.mismatch(dict(case, copy=copy, alias=alias), "unchanged",
+                         "modified", what=tag + ": the caller's arrays were "
+                         "modified by a failing call")
+        return
+    # decode: result, 77, x cells, 77, d cells, 77, temperature cells
     i, model = 0, []
     for _ in range(n):
         if flat[i] == 0:
@@ -1025,37 +1125,52 @@ def nocopy_compare(run, case, L, flat, dist, cond):
         else:
             model.append(Fraction(flat[i + 1], flat[i + 2]))
             i += 3
-    why = compare_model(model, [float(v) for v in np.atleast_1d(e)], dist,
-                        cond)
+    why = None
+    if copy or not alias:
+        why = compare_model(model, [float(v) for v in np.atleast_1d(e)],
+                            dist, cond)
     cells = []
-    for _ in range(2):
-        if flat[i] != 77:
+    for _ in range(3):
+        if i >= len(flat) or flat[i] != 77:
             why = why or "malformed model output"
             break
         i += 1
-        cells.append([Fraction(flat[i + 2 * k], flat[i + 2 * k + 1])
-                      for k in range(n)])
-        i += 2 * n
-    if why is None:
+        j = i
+        while j < len(flat) and not (flat[j] == 77 and (j - i) % 2 == 0
+                                     and (j - i) // 2 in (n, 0, len(
+                                         t0 if t0 is not None else []))):
+            j += 2
+        cells.append([Fraction(flat[k], flat[k + 1])
+                      for k in range(i, j, 2)])
+        i = j
+    if why is None and copy:
+        if not np.array_equal(x, x0) or not np.array_equal(d, d0) or (
+                t0 is not None and not np.array_equal(tarr, t0)):
+            why = "the caller's arrays were modified"
+        elif len(cells) == 3 and (
+                [float(v) for v in cells[0]] != list(x0) or
+                [float(v) for v in cells[1]] != list(x0 if alias else d0)):
+            why = "the model modifies the caller's arrays"
+    if why is None and not copy and len(cells) == 3 and not alias:
         dm = float(L.nodes[:, 1].max())
-        d0 = np.array(case["d"], dtype=float)
-        for nm, arr, cell in (("abscissa", x, cells[0]),
-                              ("deform", d, cells[1])):
-            for k in range(n):
+        same_ = len(cells[0]) == n and len(cells[1]) == n
+        for nm, arr, cell, orig in (("abscissa", x, cells[0], x0),
+                                    ("deform", d, cells[1], d0)):
+            for k in range(n if same_ else 0):
                 mv = float(cell[k])
-                # deform - offset may cancel: absolute slack from the inputs
                 slack = 1e-13 * abs(d0[k]) / dm if nm == "deform" else 0.0
                 if abs(mv - arr[k]) > 1e-11 * abs(mv) + slack + 1e-300:
-                    why = ("copy=False: %s array element %d is %r after the "
-                           "call, the model says %r" % (nm, k, float(arr[k]),
-                                                        mv))
-                    break
-            if why:
-                break
+                    same_ = False
+        # not demanded by the property ("overridden"): information only
+        run.count("corr:mem:copy=False-contents-%s" % (
+            "as-modelled" if same_ else "differ"))
+        if t0 is not None and not np.array_equal(tarr, t0):
+            why = "copy=False: the temperature array was modified"
     if why is not None:
-        run.mismatch(dict(case, copy=False), [str(v) for v in flat[:12]],
+        run.mismatch(dict(case, copy=copy, alias=alias),
+                     [str(v) for v in flat[:12]],
                      [float(v) for v in np.atleast_1d(e)],
-                     what="copy=False: " + why)
+                     what=tag + ": " + why)
 
 
 # --------------------------------------------------------------------------
@@ -1855,6 +1970,21 @@ def chk_nomutation(sc, rng):
     if r:
         return ("the same call repeated after an unrelated call gives a "
                 "different value for event %d: %r then %r" % r)
+    # the same ndarray passed as abscissa AND deform (copy=True): the values
+    # are those of two separate arrays, the array is unchanged
+    both = x.copy()
+    hb = _h(both)
+    a2 = dict(args, deform=both)
+    a2["area_um" if sc.L.feat == "area_um" else "volume"] = both
+    a3 = dict(args, deform=both.copy())
+    a3["area_um" if sc.L.feat == "area_um" else "volume"] = both.copy()
+    with np.errstate(all="ignore"):
+        r = same(em.get_emodulus(**a3), em.get_emodulus(**a2))
+    if r:
+        return ("the same array passed as %s and deform: event %d: %r, with "
+                "two separate arrays %r" % (sc.L.feat, r[0], r[2], r[1]))
+    if _h(both) != hb:
+        return "an array passed as both %s and deform was modified" % sc.L.feat
     E1 = np.atleast_1d(E1)
     if E1.size and (np.shares_memory(E1, x) or np.shares_memory(E1, d)):
         return "the result shares memory with an input array"
@@ -1932,6 +2062,12 @@ def chk_lutvia(sc, rng, scratch):
     sc.L.write(path, ident)
     raw = open(path, "rb").read()
     E1 = sc.f(arg=path)
+    # the same table with CRLF line ends
+    pcr = os.path.join(scratch, ident + "-crlf.txt")
+    sc.L.write(pcr, ident, crlf=True)
+    r = same(E0, sc.f(arg=pcr))
+    if r:
+        return "file with CRLF line ends: event %d: %r vs %r" % r
     load.register_lut(path)
     try:
         if load.EXTERNAL_LUTS.get(ident) != path:
@@ -2253,9 +2389,20 @@ def chk_ndbatch(sc, rng):
         med = dict(med, temp=[float(v) for v in T.ravel()])
     c2 = dict(case, x=[float(v) for v in x], d=[float(v) for v in d],
               medium=med, nd=nd)
-    with np.errstate(all="ignore"):
-        E = np.asarray(nd_call(sc.L, sc.arg, c2))
+    full = nd_layout(med["temp"], shape, nd["tlayout"]).shape == shape \
+        if med["kind"] == "known" else True
+    try:
+        with np.errstate(all="ignore"):
+            E = np.asarray(nd_call(sc.L, sc.arg, c2))
+    except Exception:
+        if not full:
+            # the statement has "scalar and per-event arrays": a temperature
+            # array of another (broadcastable) shape need not be accepted
+            return None
+        raise
     if E.shape != shape:
+        if not full:
+            return None
         return "batch of shape %r gives a result of shape %r" % (shape,
                                                                  E.shape)
     E = E.ravel()
@@ -2292,6 +2439,39 @@ def chk_ndbatch(sc, rng):
     return None
 
 
+def chk_numtypes(sc, rng):
+    """numeric viscosities, temperatures, widths and flow rates given as
+    Python int, numpy.int64, numpy.float64, numpy.float32 are numbers like
+    any other (np.float32 scalars: numpy computes the viscosity model and
+    the scaling factors in single precision, observed up to 1e-3 and NaN
+    flips near the hull -- only acceptance is demanded)"""
+    med = sc.med
+    if med["kind"] == "known" and isinstance(med["temp"], list):
+        med = dict(med, temp=med["temp"][0] if med["temp"] else 23.0)
+    # values that all types represent exactly
+    if med["kind"] == "num":
+        med = dict(med, v=float(rng.choice([3, 7, 15, 6])))
+    else:
+        med = dict(med, temp=float(rng.choice([22, 23, 24, 25])))
+    cw = float(rng.choice([20, 30, 15]))
+    fr = float(rng.choice([1, 2])) if rng.random() < 0.5 else sc.fr
+    base = np.atleast_1d(sc.f(med=dict(med, numtype="float"), cw=cw, fr=fr))
+    _, dist, cond, _ = sc.ref(med=med, cw=cw, fr=fr)
+    for nt in ("int", "np.int64", "np.float64", "np.float32"):
+        try:
+            e = np.atleast_1d(sc.f(med=dict(med, numtype=nt), cw=cw, fr=fr))
+        except Exception as exc:
+            return ("viscosity/temperature/width/flow rate given as %s: %s: "
+                    "%s" % (nt, type(exc).__name__, str(exc)[:120]))
+        if nt == "np.float32":
+            continue        # accepted; single-precision values not compared
+        r = close_outside_band(base, e, dist, cond, rtol=1e-12)
+        if r:
+            return ("numbers given as %s: event %d: %r, as float %r" % (
+                nt, r[0], r[2], r[1]))
+    return None
+
+
 CHECKS = {
     "reference": chk_reference, "batch": chk_batch,
     "scalar_vs_array": chk_scalar_vs_array,
@@ -2299,6 +2479,7 @@ CHECKS = {
     "px0": chk_px0, "nomutation": chk_nomutation, "lutvia": chk_lutvia,
     "dataset": chk_dataset, "isoelastics": chk_isoelastics,
     "rewrite": chk_rewrite, "ndbatch": chk_ndbatch,
+    "numtypes": chk_numtypes,
 }
 NEED_SCRATCH = ("lutvia", "dataset", "rewrite")
 
@@ -2411,8 +2592,11 @@ def oracle(run):
     ctx = mp.get_context("fork")
     with ctx.Pool(min(common.NCPU, 12)) as pool:
         results = pool.map(_work, jobs, chunksize=4)
+    run.extra.setdefault("_case_luts", [])
     for (case, kinds), fail in zip(cases, results):
         n = len(case["x"])
+        if case["lut"]["kind"] == "user":
+            run.extra["_case_luts"].append(case["lut"])
         run.record_case(case, n > 0, sample=n <= 8)
         run.count("oracle:%s" % case["check"])
         run.count("oracle:lut=%s" % (case["lut"].get("name")
@@ -2422,6 +2606,26 @@ def oracle(run):
         run.count("oracle:events", n)
         run.count("oracle:route=%s" % route_of(case["medium"]))
         count_quota(run, case, "oracle")
+        med = case["medium"]
+        if med["kind"] == "known":
+            run.count("oracle:alias=%s" % med["name"])
+            run.count("oracle:visc-model=%s" % med["model"])
+            ts = med["temp"] if isinstance(med["temp"], list) \
+                else [med["temp"]]
+            lo, hi = {"water": (0, 40)}.get(
+                MEDIA[med["name"]],
+                (18, 26) if med["model"].startswith("herold") else (22, 37))
+            if any(t < lo or t > hi for t in ts):
+                run.count("oracle:temp-out-of-range")
+        run.count("oracle:numtype=%s" % med.get("numtype", "float"))
+        if n >= 20000:
+            run.count("oracle:large-batch")
+        if case["check"] == "lutvia" and case["lut"]["kind"] == "user":
+            for dt in ("list", "fortran", "readonly", "float32", "int"):
+                run.count("oracle:tuple-dtype=%s" % dt)
+        if case["check"] == "numtypes":
+            for dt in ("int", "np.int64", "np.float64", "np.float32"):
+                run.count("oracle:numtypes-check=%s" % dt)
         for k in set(kinds):
             run.count("oracle:event=%s" % k, kinds.count(k))
         if fail is not None:
@@ -2478,6 +2682,20 @@ def oracle_hypotheses(run):
     luts = [builtin_lut(n) for n in BUILTIN]
     luts += [gen_user_lut(rng, dyadic=rng.random() < 0.5, nmax=60)
              for _ in range(100 if run.thorough else 25)]
+    # ... and on the tables of the generated oracle and correspondence cases
+    seen_ = set()
+    for c in run.extra.get("_case_luts", []):
+        key = json.dumps(c, sort_keys=True)
+        if key in seen_ or c.get("grid"):
+            continue        # cocircular tables: Delaunay is not strict
+        seen_.add(key)
+        Lc = lut_from_case(c)
+        why = check_triangulation(Lc, Lc.cw, "array")
+        run.count("oracle:hyp-tri-case-table")
+        if why:
+            run.broken.append(("oracle-hypothesis(tri)",
+                               "case table: %s" % why))
+    run.extra.pop("_case_luts", None)
     for L in luts:
         for cw, route in ((L.cw, "array"), (rng.choice([15.0, 30.0, 17.5]),
                                             "scalar")):
